@@ -33,6 +33,14 @@
              C15_BindModel.rendered), and the answer.  Compared with C15_BindModel.serve_params
              (snapshot keys as a set: a JSON object), judged by P_search and C15_BindSpec.P_params:
              every executed hook read the conversion request of its step.
+   CEnc:     CHandler, with the hooks' outputs AS ENCODED (C15_EncModel.eobj): every element of a step's
+             convertedObjects is recorded by what it says about its apiVersion (an object whose
+             apiVersion is a well-formed string / "" / a malformed text / missing / null / not a string;
+             the element null; an element that is no object), in the outcome scripts, in what the next
+             hook received (review.request.objects of its binding context, classified by the harness
+             from the raw JSON) and in the answer's convertedObjects.  Compared with
+             C15_EncModel.serve_e (ExtractAPIVersions with one fresh decoding per element), judged by
+             P_search and C15_EncSpec.P_enc (an element without apiVersion is not at the desired version).
    CCrash:   the implementation panicked / the harness could not observe.
 
    Because Go iterates maps, WHICH valid chain is returned is not determined: chains are
@@ -40,7 +48,7 @@
    with the model is found / not found, and — given the implementation's chain — the
    complete run of the handler. *)
 From Coq Require Import String.
-From Verif Require Import Common C15_Model C15_Spec C15_BindModel C15_BindSpec.
+From Verif Require Import Common C15_Model C15_Spec C15_BindModel C15_BindSpec C15_EncModel C15_EncSpec.
 
 Inductive case :=
 | CSearch (rules : list rule) (shared : bool) (qs : list rule) (answers : list (option (list rule)))
@@ -49,6 +57,8 @@ Inductive case :=
 | CSession (rules : list rule) (owners : list N) (hsets : list (option hsettings)) (reqs : list sreq)
 | CParams (rules : list rule) (hooks : list hookcfg) (src desired : version) (dtext : bytes)
           (chain : option (list rule)) (req : list obj) (outs : list outcome) (trace : list delivery) (ans : review)
+| CEnc (rules : list rule) (src desired : version) (dtext : bytes) (chain : option (list rule))
+       (req : list obj) (outs : list eoutcome) (trace : list einvocation) (ans : ereview)
 | CCrash
 with sreq :=
 | SReq (src desired : version) (dtext : bytes) (chain : option (list rule))
@@ -59,6 +69,7 @@ Inductive mobs :=
 | MHandler (found : bool) (trace : list invocation) (ans : review)
 | MSession (found : list bool) (res : list (list invocation * review))
 | MParams (found : bool) (trace : list delivery) (ans : review)
+| MEnc (found : bool) (trace : list einvocation) (ans : ereview)
 | MCrash.
 
 Definition is_some {A} (o : option A) : bool := match o with Some _ => true | None => false end.
@@ -86,6 +97,9 @@ Definition model_obs (c : case) : mobs :=
   | CParams rules hooks src desired dtext chain req outs _ _ =>
     let '(t, a) := serve_params crd_name hooks dtext desired (chain_of chain) outs req in
     MParams (is_some (snd (find rules (base_cache rules) (src, desired)))) t a
+  | CEnc rules src desired dtext chain req outs _ _ =>
+    let '(t, a) := serve_e dtext desired (chain_of chain) outs (map wf req) in
+    MEnc (is_some (snd (find rules (base_cache rules) (src, desired)))) t a
   | CCrash => MCrash
   end.
 
@@ -94,6 +108,14 @@ Definition answer_eqb (a b : review) : bool :=
   match a, b with
   | RSuccess x, RSuccess y => objs_eqb x y
   | RFailure m, RFailure m' => bytes_eqb m m'
+  | _, _ => false
+  end.
+
+Definition einv_eqb (a b : einvocation) : bool := rule_eqb (fst a) (fst b) && eobjs_eqb (snd a) (snd b).
+Definition eanswer_eqb (a b : ereview) : bool :=
+  match a, b with
+  | ERSuccess x, ERSuccess y => eobjs_eqb x y
+  | ERFailure m, ERFailure m' => bytes_eqb m m'
   | _, _ => false
   end.
 
@@ -127,6 +149,8 @@ Definition agrees (c : case) : bool :=
     list_eqb Bool.eqb found (map sreq_found reqs) && list_eqb seen_eqb res (map sreq_seen reqs)
   | CParams rules hooks _ _ _ chain _ _ trace ans, MParams found t a =>
     same_rules rules hooks && Bool.eqb found (is_some chain) && list_eqb delivery_eqb t trace && answer_eqb a ans
+  | CEnc _ _ _ _ chain _ _ trace ans, MEnc found t a =>
+    Bool.eqb found (is_some chain) && list_eqb einv_eqb t trace && eanswer_eqb a ans
   | _, _ => false
   end.
 
@@ -140,6 +164,8 @@ Definition P (c : case) : bool :=
     && (if settings_in_domain hsets then all_P_session (map sreq_squery reqs) (map sreq_seen reqs) else true)
   | CParams rules hooks src desired _ chain req outs trace ans =>
     P_search rules src desired chain && P_params hooks desired (chain_of chain) outs req trace ans
+  | CEnc rules src desired _ chain req outs trace ans =>
+    P_search rules src desired chain && P_enc desired (chain_of chain) outs (map wf req) trace ans
   | CCrash => false
   end.
 
@@ -190,6 +216,19 @@ Definition RC (h binding ty : N) (snaps : option (list N)) (g : N) (vers : optio
 Definition CP (rules : list rule) (hooks : list hookcfg) (src desired : N) (dtext : bytes) (chain : list N)
            (req : list obj) (outs : list outcome) (trace : list delivery) (ans : review) : case :=
   CParams rules hooks (v src) (v desired) dtext (chain_at rules chain) req outs trace ans.
+
+(* encoded elements: oW id c = an object whose apiVersion is the well-formed version c; oE "" ; oB the k-th
+   malformed text made from version c; oM missing; oN null; oX not a string (k-th kind); ENull; ENonObj k *)
+Definition oW (id c : N) : eobj := EObj id (AStr (SVer (v c))).
+Definition oE (id : N) : eobj := EObj id (AStr SEmpty).
+Definition oB (id k c : N) : eobj := EObj id (AStr (SBad k (v c))).
+Definition oM (id : N) : eobj := EObj id AMissing.
+Definition oN (id : N) : eobj := EObj id ANull.
+Definition oX (id k : N) : eobj := EObj id (ANonString k).
+Definition CE (rules : list rule) (src desired : N) (dtext : bytes) (chain : list N) (req : list obj) (outs : list eoutcome)
+           (trace : list (N * list eobj)) (ans : ereview) : case :=
+  CEnc rules (v src) (v desired) dtext (chain_at rules chain) req outs
+       (map (fun t => (nth (N.to_nat (fst t)) rules bogus_rule, snd t)) trace) ans.
 
 Definition mismatches (cs : list case) : list N := indices_where (fun c => negb (agrees c)) cs.
 Definition spec_violations (cs : list case) : list N := indices_where (fun c => negb (P c)) cs.
